@@ -5,6 +5,7 @@ import (
 	"fmt"
 	"os"
 	"path/filepath"
+	"runtime/debug"
 	"sort"
 	"strings"
 	"testing/synctest"
@@ -60,11 +61,15 @@ type sim struct {
 	// failedSwitch: a delivery errored and still moved the node off its chain
 	failedSwitch bool
 	buildHeight  uint32 // height of the block the transaction being built is meant for
+	nKeyed       int    // actors [0,nKeyed) hold keys; the rest are script actors
 	frozen       int    // actor whose address is frozen (-1: none)
 	frozenHeight uint32
 }
 
 func (s *sim) now() time.Time { return time.Now() }
+
+// keyed returns an actor that holds a key.
+func (s *sim) keyed(i int) *actor { return s.actors[mod(i, s.nKeyed)] }
 
 func (s *sim) nodeTip() *mBlock {
 	h := *s.node.chain.BestChain.Hash
@@ -108,6 +113,8 @@ func execute(c *core.Ctx) {
 	defer os.RemoveAll(s.dir)
 	seedGlobals(p.Seed)
 	s.actors = makeActors(p.Seed, int(p.Knob("actors", 5)))
+	s.nKeyed = len(s.actors)
+	s.actors = addScriptActors(s.actors, p.Seed, int(p.Knob("weird", 0)), int(p.Knob("weirdpick", 0)))
 	if err := s.start(true); err != nil {
 		panic(fmt.Sprintf("harness: node start: %v", err))
 	}
@@ -276,7 +283,7 @@ func (s *sim) deliver(mb *mBlock) {
 	var err error
 	panicked := callGuard(func() { inMain, orphan, err = s.node.chain.ProcessBlock(mb.blk, nil) })
 	if panicked != nil {
-		c.Violate("C03", "process-block", "C03/ProcessBlock-panic/"+classOf(mb.why), "ProcessBlock panicked on block #%d (%s): %v", mb.idx, mb.why, panicked)
+		c.Violate("C03", "process-block", "C03/ProcessBlock-panic/"+lastPanicSite, "ProcessBlock panicked in %s on block #%d (%s): %v", lastPanicSite, mb.idx, mb.why, panicked)
 		s.dead = true
 		return
 	}
@@ -323,14 +330,42 @@ func orNone(s string) string {
 	return s
 }
 
+// lastPanicSite is the repo function in which the last guarded panic arose.
+var lastPanicSite string
+
 func callGuard(f func()) (p interface{}) {
 	defer func() {
 		if x := recover(); x != nil {
 			p = x
+			lastPanicSite = panicSite(string(debug.Stack()))
 		}
 	}()
 	f()
 	return nil
+}
+
+// panicSite extracts the innermost function of the code under test from a
+// stack trace taken inside recover.
+func panicSite(stack string) string {
+	lines := strings.Split(stack, "\n")
+	seenPanic := false
+	for _, l := range lines {
+		if strings.HasPrefix(l, "panic(") {
+			seenPanic = true
+			continue
+		}
+		if !seenPanic || strings.HasPrefix(l, "\t") {
+			continue
+		}
+		if i := strings.Index(l, "github.com/elastos/Elastos.ELA/"); i >= 0 {
+			fn := l[i+len("github.com/elastos/Elastos.ELA/"):]
+			if j := strings.LastIndex(fn, "("); j > 0 {
+				fn = fn[:j]
+			}
+			return fn
+		}
+	}
+	return "unknown-site"
 }
 
 func (s *sim) retained(b *mBlock) bool {
@@ -396,7 +431,7 @@ func (s *sim) submit(spec TxSpec) {
 		}
 	})
 	if panicked != nil {
-		c.Violate("C03", "mempool", "C03/AppendToTxPool-panic/"+classOf(label), "AppendToTxPool panicked (%s): %v", label, panicked)
+		c.Violate("C03", "mempool", "C03/AppendToTxPool-panic/"+lastPanicSite, "AppendToTxPool panicked in %s (%s, from %s): %v", lastPanicSite, label, s.actors[mod(spec.From, len(s.actors))].weird, panicked)
 		s.dead = true
 		return
 	}
@@ -453,7 +488,7 @@ func (s *sim) minePool() {
 	var blk *types.Block
 	var err error
 	if p := callGuard(func() { blk, err = s.node.svc.GenerateBlock(s.actors[1%len(s.actors)].acc.Address, 100) }); p != nil {
-		c.Violate("C03", "generate-block", "C03/GenerateBlock-panic", "GenerateBlock panicked: %v", p)
+		c.Violate("C03", "generate-block", "C03/GenerateBlock-panic/"+lastPanicSite, "GenerateBlock panicked in %s: %v", lastPanicSite, p)
 		s.dead = true
 		return
 	}
